@@ -21,7 +21,10 @@ Fails(e) ==
   \cup (IF e.dec = "ok" /\ ~Valid(e.kind, e.image) THEN {"accepted-invalid"} ELSE {})
   \cup (IF inm /\ e.enc = "ok" /\ e.dec # "ok" THEN {"encode-accepts-decode-refuses"} ELSE {})
   \cup (IF inm /\ e.enc # "ok" /\ e.dec = "ok" THEN {"encode-refuses-decode-accepts"} ELSE {})
-  \cup (IF e.enc = "panic" \/ e.dec = "panic" THEN {"panic"} ELSE {})
+  \cup (IF e.enc = "panic" \/ e.dec = "panic" \/ e.decused = "panic" THEN {"panic"} ELSE {})
+  \* the verdict on the bytes is the verdict of the rules: not of what the destination held before
+  \cup (IF e.decused # e.dec THEN {"decode-verdict-depends-on-what-the-destination-held-before"} ELSE {})
+  \cup (IF ~e.usedsame THEN {"decoded-headers-depend-on-what-the-destination-held-before"} ELSE {})
 
 TInit == l = 1 /\ KitInit
 TNext == /\ l <= Len(Tr) /\ l' = l + 1
